@@ -4,6 +4,7 @@
   way `AppendOptions` writes them parse back to the values written.
 -/
 import PacketVerif.Model.Dhcp4Opt
+import PacketVerif.Lemmas.Dhcp4OptPerm
 namespace PV.Props.C03Dhcp
 open PV PV.Model.Dhcp4Opt
 
@@ -92,6 +93,8 @@ def flatten (seq : List (UInt8 × Bytes)) : Bytes := (seq.map tlv).flatten
 
 /-- encodable option: code other than pad / end, value of at most 255 bytes -/
 def WF (e : UInt8 × Bytes) : Prop := e.1 ≠ 0 ∧ e.1 ≠ 255 ∧ e.2.length ≤ 255
+
+instance (e : UInt8 × Bytes) : Decidable (WF e) := by unfold WF; infer_instance
 
 /-- one well-formed option at the head of the area is parsed to its value -/
 theorem parseLoop_tlv (fuel : Nat) (e : UInt8 × Bytes) (rest : Bytes) (acc : Opts) (hw : WF e) :
@@ -193,5 +196,306 @@ theorem parse_written (hdr : Bytes) (hh : hdr.length = 240) (opts : Opts) (order
 /-- non-vacuity: the server's reply options for a captured client, requested order "router, mask" -/
 example : (emitSeq [(3, [10, 0, 0, 9]), (1, [255, 255, 255, 248]), (6, [1, 1, 1, 3]), (53, [2])] [3, 1] [53, 6]).map (·.1)
     = [1, 3, 53, 6] := by decide
+
+/-! ### `AppendOptions` writes every entry of the map exactly once; full round trip -/
+
+open PV.Lemmas.Dhcp4OptPerm in
+/-- **the options `AppendOptions` writes are a permutation of the option map**: each key exactly once, with
+    its value, for ANY parameter request order (repetitions, absent codes, the built-in 1 / 33 / 3 included)
+    and ANY map iteration order `tail` that has no repetition and visits every key left after the ordered
+    phase (codes that are not in the map may appear in `tail`: they are skipped).  The map is a Go map:
+    its keys are unique. -/
+theorem emitSeq_perm (opts : Opts) (order : Bytes) (tail : List UInt8)
+    (hn : (opts.map (·.1)).Nodup) (ht : tail.Nodup)
+    (hc : ∀ e, e ∈ (orderedPhase (fullOrder order) opts).2 → e.1 ∈ tail) :
+    (emitSeq opts order tail).Perm opts :=
+  Lemmas.Dhcp4OptPerm.emitSeq_perm opts order tail hn ht hc
+
+/-- the same when `tail` is exactly what Go's `range` over the remaining map gives: a permutation of the
+    keys that are left after the ordered phase -/
+theorem emitSeq_perm_of_range (opts : Opts) (order : Bytes) (tail : List UInt8)
+    (hn : (opts.map (·.1)).Nodup)
+    (hr : tail.Perm ((orderedPhase (fullOrder order) opts).2.map (·.1))) :
+    (emitSeq opts order tail).Perm opts := by
+  have h2 := (Lemmas.Dhcp4OptPerm.orderedPhase_perm (fullOrder order) opts hn).2
+  apply emitSeq_perm opts order tail hn (hr.nodup_iff.2 h2)
+  intro e he
+  exact hr.mem_iff.2 (List.mem_map.2 ⟨e, he, rfl⟩)
+
+/-- the same when `tail` is any enumeration without repetition of a set of codes that contains the keys of the
+    map (for instance all 256 codes in any order): no reference to the ordered phase -/
+theorem emitSeq_perm_of_cover (opts : Opts) (order : Bytes) (tail : List UInt8)
+    (hn : (opts.map (·.1)).Nodup) (ht : tail.Nodup) (hc : ∀ e, e ∈ opts → e.1 ∈ tail) :
+    (emitSeq opts order tail).Perm opts :=
+  emitSeq_perm opts order tail hn ht
+    (fun e he => hc e (Lemmas.Dhcp4OptPerm.orderedPhase_rest_sub _ _ e he))
+
+/-- no code is written twice -/
+theorem emitSeq_keys_nodup (opts : Opts) (order : Bytes) (tail : List UInt8)
+    (hn : (opts.map (·.1)).Nodup) (ht : tail.Nodup)
+    (hc : ∀ e, e ∈ (orderedPhase (fullOrder order) opts).2 → e.1 ∈ tail) :
+    ((emitSeq opts order tail).map (·.1)).Nodup :=
+  ((emitSeq_perm opts order tail hn ht hc).map _).nodup_iff.2 hn
+
+/-- the permutation statement with an unconstrained iteration order -/
+def emitSeq_perm_unconstrained : Prop :=
+  ∀ (opts : Opts) (order : Bytes) (tail : List UInt8), (opts.map (·.1)).Nodup → (emitSeq opts order tail).Perm opts
+
+/-- the hypotheses on `tail` are needed: an iteration order that misses a remaining key drops the option, one
+    that repeats a key writes it twice (the model's `tail` parameter is only meaningful as an enumeration of
+    the remaining keys) -/
+theorem finding_tail_must_enumerate : ¬ emitSeq_perm_unconstrained := by
+  intro h
+  have := (h [(6, [1])] [] [] (by decide)).length_eq
+  revert this
+  decide
+
+/-- a repeated key in `tail` writes the option twice -/
+theorem finding_tail_repetition : emitSeq [(6, [1])] [] [6, 6] = [(6, [1]), (6, [1])] := by decide
+
+/-- the unique-key hypothesis is needed: on an association list with a repeated key (not a Go map) the
+    first binding is written and all of them are deleted -/
+theorem finding_keys_must_be_unique : emitSeq [(6, [1]), (6, [2])] [] [6] = [(6, [1])] := by decide
+
+/-- non-vacuity of `emitSeq_perm`: the captured reply, requested order "router, mask, mask, 42" (a repetition
+    and an absent code), iteration order 6 before 53 with a stray code 9 -/
+example : (emitSeq [(3, [10, 0, 0, 9]), (1, [255, 255, 255, 248]), (6, [1, 1, 1, 3]), (53, [2])] [3, 1, 1, 42] [6, 9, 53]).Perm
+    [(3, [10, 0, 0, 9]), (1, [255, 255, 255, 248]), (6, [1, 1, 1, 3]), (53, [2])] :=
+  emitSeq_perm _ _ _ (by decide) (by decide) (by decide)
+
+theorem flatten_length_perm {s t : List (UInt8 × Bytes)} (h : s.Perm t) : (flatten s).length = (flatten t).length := by
+  induction h with
+  | nil => rfl
+  | cons x _ ih => simp [flatten] at ih ⊢; omega
+  | swap x y l => simp [flatten]; omega
+  | trans _ _ ih1 ih2 => omega
+
+/-- size of the written option area: two bytes of code and length plus the value, per option -/
+theorem flatten_length (s : List (UInt8 × Bytes)) : (flatten s).length = (s.map (fun e => 2 + e.2.length)).sum := by
+  induction s with
+  | nil => rfl
+  | cons e s ih => simp [flatten, tlv] at ih ⊢; omega
+
+/-- **round trip of the option area as equality of finite maps**: for a map with unique keys whose entries are
+    all encodable (code other than 0 / 255, value of at most 255 bytes; the empty value is allowed) and whose
+    encoding fits the 1024-byte scratch buffer, for any request order and any iteration order enumerating the
+    remaining keys, `ParseOptions` of (header, written bytes, end option, padding) is the map written: a
+    permutation of its entries, with unique keys, and the same lookup function -/
+theorem parse_written_map (hdr : Bytes) (hh : hdr.length = 240) (opts : Opts) (order : Bytes) (tail : List UInt8) (pad : Bytes)
+    (hn : (opts.map (·.1)).Nodup) (ht : tail.Nodup)
+    (hc : ∀ e, e ∈ (orderedPhase (fullOrder order) opts).2 → e.1 ∈ tail)
+    (hw : ∀ e, e ∈ opts → WF e) (hfit : (flatten opts).length ≤ 1024) :
+    ∃ buf parsed, writeAll (emitSeq opts order tail) [] = .ok buf ∧
+      parseOptions (hdr ++ buf ++ 255 :: pad) = .ok parsed ∧
+      parsed.Perm opts ∧ (parsed.map (·.1)).Nodup ∧ ∀ c, optGet parsed c = optGet opts c := by
+  have hp := emitSeq_perm opts order tail hn ht hc
+  have hk := emitSeq_keys_nodup opts order tail hn ht hc
+  obtain ⟨buf, h1, h2⟩ := parse_written hdr hh opts order tail pad
+    (fun e he => hw e (hp.mem_iff.1 he)) (by rw [flatten_length_perm hp]; exact hfit)
+  rw [Lemmas.Dhcp4OptPerm.foldl_optSet_reverse _ hk] at h2
+  have hp2 : (emitSeq opts order tail).reverse.Perm opts := (List.reverse_perm _).trans hp
+  have hn2 : ((emitSeq opts order tail).reverse.map (·.1)).Nodup := (hp2.map _).nodup_iff.2 hn
+  exact ⟨buf, _, h1, h2, hp2, hn2, fun c => Lemmas.Dhcp4OptPerm.optGet_perm hp2 hn2 c⟩
+
+theorem copyInto_length (dst src : Bytes) : (copyInto dst src).length = dst.length := by
+  unfold copyInto
+  simp only [List.length_append, List.length_take, List.length_drop]
+  omega
+
+/-- without overflow `AppendOptions` places exactly the TLVs of the sequence -/
+theorem appendOptions_ok (cap : Nat) (opts : Opts) (order : Bytes) (tail : List UInt8)
+    (hcap : 240 ≤ cap) (hfit : (flatten (emitSeq opts order tail)).length ≤ 1024)
+    (hroom : 240 + (flatten (emitSeq opts order tail)).length ≤ cap) :
+    appendOptions cap opts order tail =
+      .ok (flatten (emitSeq opts order tail), (flatten (emitSeq opts order tail)).length) := by
+  unfold appendOptions
+  have h1 : ¬ cap < 240 := by omega
+  simp only [h1, if_false]
+  have := writeAll_flatten (emitSeq opts order tail) [] (by simpa using hfit)
+  rw [this]
+  simp only [Outcome.bind_ok, List.nil_append]
+  rw [List.take_of_length_le (by omega)]
+
+/-- shape of the packet `EncodeDHCP4` returns when the options fit: a 240-byte header, the placed option bytes,
+    the end option, zero padding up to 300 bytes -/
+theorem encodeDHCP4_shape (b : Bytes) (a : EncArgs) (tail : List UInt8) (placed : Bytes) (pos : Nat)
+    (hb : 300 ≤ b.length)
+    (hci : ∀ x, a.ciaddr = some x → x.length = 4) (hyi : ∀ x, a.yiaddr = some x → x.length = 4)
+    (happ : appendOptions b.length (optSet a.opts 53 [a.mt]) a.order tail = .ok (placed, pos))
+    (hpos : 240 + pos < b.length) :
+    ∃ hdr pad, hdr.length = 240 ∧ encodeDHCP4 b a tail = .ok (hdr ++ placed ++ 255 :: pad) := by
+  obtain ⟨opcode, mt, chaddr, ciaddr, yiaddr, xid, broadcast, opts, order⟩ := a
+  unfold encodeDHCP4
+  have h1 : ¬ b.length < 300 := by omega
+  have h2 : ¬ 240 + pos ≥ b.length := by omega
+  simp only [h1, if_false]
+  simp only [] at happ
+  rw [happ]
+  simp only [Outcome.bind_ok, h2, if_false]
+  have key : ∀ (h z : Bytes), h ++ placed ++ [255] ++ z = h ++ placed ++ 255 :: z := by
+    intro h z; simp
+  rw [key]
+  refine ⟨_, _, ?_, rfl⟩
+  · have c4 : ∀ x, ciaddr = some x → x.length = 4 := hci
+    have y4 : ∀ x, yiaddr = some x → x.length = 4 := hyi
+    cases chaddr <;> cases ciaddr <;> cases yiaddr <;> cases xid <;>
+      simp only [List.length_append, List.length_cons, List.length_nil, copyInto_length, zeros,
+        List.length_replicate, List.length_take, List.length_drop] <;>
+      (try have := c4 _ rfl) <;> (try have := y4 _ rfl) <;> omega
+
+/-- the room side condition is necessary: when header, written options and the end option do not fit the
+    packet buffer, `EncodeDHCP4` panics on the write of the end option -/
+theorem encodeDHCP4_panics_without_room (b : Bytes) (a : EncArgs) (tail : List UInt8) (placed : Bytes) (pos : Nat)
+    (hb : 300 ≤ b.length)
+    (happ : appendOptions b.length (optSet a.opts 53 [a.mt]) a.order tail = .ok (placed, pos))
+    (hpos : b.length ≤ 240 + pos) : encodeDHCP4 b a tail = .panic := by
+  unfold encodeDHCP4
+  have h1 : ¬ b.length < 300 := by omega
+  have h2 : 240 + pos ≥ b.length := hpos
+  simp only [h1, if_false]
+  rw [happ]
+  simp only [Outcome.bind_ok, h2, if_true]
+
+/-- **full round trip `ParseOptions (EncodeDHCP4 …) = opts ∪ {53 ↦ mt}` as equality of finite maps.**
+    Side conditions (unique keys and the enumeration hypothesis: see `finding_keys_must_be_unique`,
+    `finding_tail_must_enumerate`; encodability: `roundtrip_needs_wf`; room: `encodeDHCP4_panics_without_room`;
+    beyond 1024 bytes the scratch buffer write panics or `copy` truncates): the caller's map has unique keys;
+    every entry other than a caller-supplied 53 (which is overridden) has a code other than 0 (pad) and 255
+    (end) and a value of at most 255 bytes (zero-length values are fine); the encoding of the map with 53 set
+    fits the 1024-byte scratch buffer and, with the 240-byte header and the end option, the packet buffer;
+    the buffer has the minimum 300 bytes; ciaddr / yiaddr when given are 4 bytes; the iteration order
+    enumerates the keys left after the ordered phase without repetition.  Then the encoder returns a packet,
+    the parser returns a map, that map is a permutation of `optSet opts 53 [mt]` with unique keys, and its
+    lookup function is: `[mt]` at 53, the caller's value everywhere else. -/
+theorem encode_parse_roundtrip (b : Bytes) (a : EncArgs) (tail : List UInt8)
+    (hb : 300 ≤ b.length)
+    (hci : ∀ x, a.ciaddr = some x → x.length = 4) (hyi : ∀ x, a.yiaddr = some x → x.length = 4)
+    (hn : (a.opts.map (·.1)).Nodup)
+    (hw : ∀ e, e ∈ a.opts → e.1 ≠ 53 → WF e)
+    (ht : tail.Nodup)
+    (hc : ∀ e, e ∈ (orderedPhase (fullOrder a.order) (optSet a.opts 53 [a.mt])).2 → e.1 ∈ tail)
+    (hfit : (flatten (optSet a.opts 53 [a.mt])).length ≤ 1024)
+    (hroom : 240 + (flatten (optSet a.opts 53 [a.mt])).length < b.length) :
+    ∃ pkt parsed, encodeDHCP4 b a tail = .ok pkt ∧ parseOptions pkt = .ok parsed ∧
+      parsed.Perm (optSet a.opts 53 [a.mt]) ∧ (parsed.map (·.1)).Nodup ∧
+      ∀ c, optGet parsed c = if c = 53 then some [a.mt] else optGet a.opts c := by
+  have hnM := Lemmas.Dhcp4OptPerm.nodup_optSet hn 53 [a.mt]
+  have hwM : ∀ e, e ∈ optSet a.opts 53 [a.mt] → WF e := by
+    intro e he
+    rcases List.mem_cons.1 he with h | h
+    · rw [h]; exact ⟨by simp, by simp, by simp⟩
+    · obtain ⟨h1, h2⟩ := Lemmas.Dhcp4OptPerm.mem_optDel.1 h
+      exact hw e h1 h2
+  have hp := emitSeq_perm _ a.order tail hnM ht hc
+  have hl := flatten_length_perm hp
+  have happ := appendOptions_ok b.length (optSet a.opts 53 [a.mt]) a.order tail (by omega)
+    (by rw [hl]; exact hfit) (by rw [hl]; omega)
+  obtain ⟨hdr, pad, hh, henc⟩ := encodeDHCP4_shape b a tail _ _ hb hci hyi happ (by rw [hl]; exact hroom)
+  obtain ⟨buf, parsed, h1, h2, h3, h4, h5⟩ := parse_written_map hdr hh _ a.order tail pad hnM ht hc hwM hfit
+  have hbuf : buf = flatten (emitSeq (optSet a.opts 53 [a.mt]) a.order tail) := by
+    have := writeAll_flatten (emitSeq (optSet a.opts 53 [a.mt]) a.order tail) [] (by simpa [hl] using hfit)
+    rw [this] at h1
+    simpa using h1.symm
+  refine ⟨_, parsed, henc, ?_, h3, h4, ?_⟩
+  · rw [← hbuf]; exact h2
+  · intro c
+    rw [h5 c, Lemmas.Dhcp4OptPerm.optGet_optSet]
+
+/-- the caller's own option 53 never survives: the message type argument overrides it -/
+theorem roundtrip_overrides_53 (o : Opts) (mt : UInt8) : optGet (optSet o 53 [mt]) 53 = some [mt] := by
+  rw [Lemmas.Dhcp4OptPerm.optGet_optSet]; simp
+
+/-- lookup-function equality and permutation are the same thing on maps with unique keys -/
+theorem map_eq_iff_perm {o o' : Opts} (hn : (o.map (·.1)).Nodup) (hn' : (o'.map (·.1)).Nodup) :
+    o.Perm o' ↔ ∀ c, optGet o c = optGet o' c :=
+  ⟨fun h c => Lemmas.Dhcp4OptPerm.optGet_perm h hn c, Lemmas.Dhcp4OptPerm.perm_of_optGet hn hn'⟩
+
+/-- whatever the bytes, every entry the parser returns is encodable: code other than 0 / 255, at most 255 bytes -/
+theorem parseLoop_wf : ∀ (fuel : Nat) (opts : Bytes) (acc o : Opts), (∀ e, e ∈ acc → WF e) →
+    parseLoop fuel opts acc = .ok o → ∀ e, e ∈ o → WF e
+  | 0, opts, acc, o, _, h => by simp [parseLoop] at h
+  | fuel + 1, opts, acc, o, ha, h => by
+    unfold parseLoop at h
+    by_cases h2 : opts.length < 2
+    · simp only [h2, if_true, Outcome.ok.injEq] at h
+      rw [← h]; exact ha
+    · simp only [h2, if_false] at h
+      rw [idx_ok (by omega)] at h
+      simp only [Outcome.bind_ok] at h
+      split at h
+      · simp only [Outcome.ok.injEq] at h
+        rw [← h]; exact ha
+      · split at h
+        · rw [sliceFrom_ok (by omega)] at h
+          simp only [Outcome.bind_ok] at h
+          exact parseLoop_wf fuel _ _ o ha h
+        · rw [idx_ok (by omega)] at h
+          simp only [Outcome.bind_ok] at h
+          split at h
+          · simp only [Outcome.ok.injEq] at h
+            rw [← h]; exact ha
+          · rw [slice_ok (by omega) (by omega), sliceFrom_ok (by omega)] at h
+            simp only [Outcome.bind_ok] at h
+            refine parseLoop_wf fuel _ _ o ?_ h
+            intro e he
+            rcases List.mem_cons.1 he with h3 | h3
+            · rw [h3]
+              refine ⟨by simpa using ‹¬ (opts[0] == 0) = true›, by simpa using ‹¬ (opts[0] == 255) = true›, ?_⟩
+              have := UInt8.toNat_lt opts[1]
+              simp only [List.length_drop, List.length_take]
+              omega
+            · exact ha e (Lemmas.Dhcp4OptPerm.mem_optDel.1 h3).1
+
+/-- **the encodability side condition of the round trip is necessary**: a map that comes back from
+    `ParseOptions` (up to permutation), from any packet at all, has only encodable entries -/
+theorem roundtrip_needs_wf (p : Bytes) (parsed m : Opts) (h : parseOptions p = .ok parsed) (hp : parsed.Perm m) :
+    ∀ e, e ∈ m → WF e := by
+  intro e he
+  unfold parseOptions at h
+  exact parseLoop_wf _ _ [] parsed (by intro x hx; cases hx) h e (hp.mem_iff.2 he)
+
+/-- the parser sees only what follows the 240-byte header -/
+theorem parseOptions_hdr (hdr : Bytes) (hh : hdr.length = 240) (area : Bytes) (ha : area ≠ []) :
+    parseOptions (hdr ++ area) = parseLoop (area.length + 1) area [] := by
+  unfold parseOptions optionsOf
+  have hl : (hdr ++ area).length > 240 := by
+    cases area with
+    | nil => exact absurd rfl ha
+    | cons x xs => simp [hh]
+  have hd : (hdr ++ area).drop 240 = area := by rw [List.drop_append, hh]; simp [hh]
+  simp only [hl, if_true, hd]
+
+/-- the side condition "code ≠ 0" is needed: a pad-coded entry is not parsed back (its length byte is read as
+    a code: the entry 0 ↦ [1, 7] comes back as 2 ↦ [7]) -/
+theorem finding_code_0_not_round_tripped (hdr : Bytes) (hh : hdr.length = 240) :
+    parseOptions (hdr ++ flatten [(0, [1, 7])] ++ [255]) = .ok [(2, [7])] := by
+  rw [List.append_assoc, parseOptions_hdr hdr hh _ (by decide)]
+  decide
+
+/-- the side condition "code ≠ 255" is needed: an end-coded entry hides itself and everything written after it -/
+theorem finding_code_255_not_round_tripped (hdr : Bytes) (hh : hdr.length = 240) :
+    parseOptions (hdr ++ flatten [(255, [1]), (6, [1, 1, 1, 3])] ++ [255]) = .ok [] := by
+  rw [List.append_assoc, parseOptions_hdr hdr hh _ (by decide)]
+  decide
+
+/-- non-vacuity of the full round trip: a 300-byte buffer, an ACK (5) with mask, router, DNS, an empty-valued
+    option and a caller-supplied 53 that is overridden -/
+example : ∃ pkt parsed,
+    encodeDHCP4 (zeros 300) ⟨2, 5, none, none, some [10, 0, 0, 7], none, false,
+      [(3, [10, 0, 0, 9]), (1, [255, 255, 255, 248]), (6, [1, 1, 1, 3]), (80, []), (53, [1])], [3, 1]⟩ [6, 80, 53] = .ok pkt ∧
+    parseOptions pkt = .ok parsed ∧
+    parsed.Perm (optSet [(3, [10, 0, 0, 9]), (1, [255, 255, 255, 248]), (6, [1, 1, 1, 3]), (80, []), (53, [1])] 53 [5]) ∧
+    (parsed.map (·.1)).Nodup ∧
+    ∀ c, optGet parsed c = if c = 53 then some [5] else
+      optGet [(3, [10, 0, 0, 9]), (1, [255, 255, 255, 248]), (6, [1, 1, 1, 3]), (80, []), (53, [1])] c :=
+  encode_parse_roundtrip (zeros 300) _ [6, 80, 53] (by rw [zeros, List.length_replicate]; omega) (by intro x h; cases h) (by intro x h; cases h; rfl)
+    (by decide) (by decide) (by decide) (by decide) (by decide) (by rw [zeros, List.length_replicate]; decide)
+
+/-- non-vacuity of `parse_written_map` -/
+example : ∃ buf parsed, writeAll (emitSeq [(3, [10, 0, 0, 9]), (1, [255, 255, 255, 248]), (53, [2])] [3] [53]) [] = .ok buf ∧
+    parseOptions (zeros 240 ++ buf ++ 255 :: []) = .ok parsed ∧
+    parsed.Perm [(3, [10, 0, 0, 9]), (1, [255, 255, 255, 248]), (53, [2])] ∧ (parsed.map (·.1)).Nodup ∧
+    ∀ c, optGet parsed c = optGet [(3, [10, 0, 0, 9]), (1, [255, 255, 255, 248]), (53, [2])] c :=
+  parse_written_map (zeros 240) (by rw [zeros, List.length_replicate]) _ _ _ _ (by decide) (by decide) (by decide) (by decide) (by decide)
 
 end PV.Props.C03Dhcp
